@@ -76,8 +76,8 @@ int sigpipe_deliveries() { return k->sigpipes; }
 bool sigpipe_ignored(int proc) { return proc_of(proc).sigpipe_ignored; }
 uint64_t msg_errors() { return k->msg_errors; }
 uint64_t msg_warnings() { return k->msg_warnings; }
-int passthrough_open() { return k->files_open + k->dirs_open + k->libs_open + k->addrinfo_open; }
-std::string passthrough_desc() { char b[128]; snprintf(b, sizeof b, "%d FILE, %d DIR, %d dlopen handle(s), %d getaddrinfo result(s)", k->files_open, k->dirs_open, k->libs_open, k->addrinfo_open); return b; }
+int passthrough_open() { return k->files_open + k->dirs_open + k->libs_open + k->addrinfo_open + k->modules_left; }
+std::string passthrough_desc() { char b[224]; snprintf(b, sizeof b, "%d FILE, %d DIR, %d dlopen handle(s), %d getaddrinfo result(s), %d module(s) still mapped after their last dlclose", k->files_open, k->dirs_open, k->libs_open, k->addrinfo_open, k->modules_left); return b; }
 int syscalls_in_bracket() { Task *t = cur(); return t ? (int)(t->syscalls - t->api_sys_base) : 0; }
 
 // called at entry of every simulated system call: scheduling point + bookkeeping. Returns invocation index.
@@ -697,12 +697,19 @@ int simk_open(const char *path, int flags, ...) {
   FdEnt e; e.kind = FD_FILE; e.realfd = rfd; e.cloexec = flags & O_CLOEXEC;
   return fd_alloc(proc_of(t->proc), e);
 }
+// A module that was not resident before the library loaded it must be gone again when the last handle the library got for it is
+// closed (RTLD_NODELETE and friends keep its mappings for the life of the process).
+static bool module_resident(const char *path) { void *p = dlopen(path, RTLD_LAZY | RTLD_NOLOAD); if (p) dlclose(p); return p != nullptr; }
 void *simk_dlopen(const char *path, int flags) {
   int n = sc_enter(SC_DLOPEN);
   int err = cur() ? want_fail(SC_DLOPEN, n) : 0;
   if (err) return nullptr;
+  bool was_resident = path && k && !k->lib_refs.count(path) ? module_resident(path) : true;
   void *h = dlopen(path, flags);
-  if (h && k) k->libs_open++;
+  if (h && k) {
+    k->libs_open++;
+    if (path) { k->lib_path[h] = path; if (!k->lib_refs.count(path)) k->lib_foreign[path] = was_resident; k->lib_refs[path]++; }
+  }
   return h;
 }
 // resolver results live on the C library's heap, outside the library's allocator table: counted like streams
@@ -720,7 +727,14 @@ void simk_freeaddrinfo(struct addrinfo *res) {
 }
 int simk_dlclose(void *h) {
   if (k && h) k->libs_open--;
-  return dlclose(h);
+  std::string path;
+  if (k && h) { auto it = k->lib_path.find(h); if (it != k->lib_path.end()) { path = it->second; k->lib_path.erase(it); } }
+  int rc = dlclose(h);
+  if (k && !path.empty() && --k->lib_refs[path] == 0) {
+    if (!k->lib_foreign[path] && module_resident(path.c_str())) { k->modules_left++; probe("loader.module_still_resident_after_close"); }
+    k->lib_refs.erase(path);
+  }
+  return rc;
 }
 
 }  // extern "C"
